@@ -26,9 +26,9 @@ theorem hex4_roundtrip (n : Nat) (h : n < 65536) :
 /-! ## The lexer undoes one rendered character -/
 
 theorem lexBody_cons_plain (c : Char) (t : List Char) (h1 : c ≠ '"') (h2 : c ≠ '\\')
-    (h3 : ¬ c.toNat < 0x20) : lexBody (c :: t) = consDecoded c (lexBody t) := by
+    (h3 : ¬ c.toNat < 0x20) (h4 : ¬ c.toNat = 0xfeff) : lexBody (c :: t) = consDecoded c (lexBody t) := by
   rw [lexBody.eq_def]
-  simp only [h1, h2, h3, if_false]
+  simp only [h1, h2, h3, h4, if_false]
 
 theorem lexBody_esc1 (e ch : Char) (t : List Char) (hu : e ≠ 'u') (h : unescape1 e = some ch) :
     lexBody ('\\' :: e :: t) = consDecoded ch (lexBody t) := by
@@ -68,11 +68,15 @@ theorem lexBody_quoteChar (c : Char) (t : List Char) :
       rw [Char.ofNat_toNat] at this
       exact this
   · next h1 h2 _ _ _ h6 =>
-      refine lexBody_cons_plain c t h1 h2 ?_
-      intro hlt
-      apply h6
-      simp only [needsU, Bool.or_eq_true, decide_eq_true_eq]
-      exact Or.inl (Or.inl (Or.inl hlt))
+      refine lexBody_cons_plain c t h1 h2 ?_ ?_
+      · intro hlt
+        apply h6
+        simp only [needsU, Bool.or_eq_true, decide_eq_true_eq]
+        exact Or.inl (Or.inl (Or.inl (Or.inl hlt)))
+      · intro hbom
+        apply h6
+        simp only [needsU, Bool.or_eq_true, decide_eq_true_eq, beq_iff_eq]
+        exact Or.inr hbom
 
 theorem lexBody_quoteBody (s rest : List Char) :
     lexBody (quoteBody s ++ '"' :: rest) = some (s, rest) := by
@@ -292,12 +296,14 @@ theorem quote_no_raw_quote (s pre post : List Char)
 
 /-! ## Non-vacuity: concrete hostile inputs -/
 
-/-- `a"b\c`, newline, U+0001, DEL, U+2028, a non-ASCII letter and an astral code point. -/
-def hostile : List Char := ['a', '"', 'b', '\\', 'c', '\n', Char.ofNat 1, Char.ofNat 0x7f, Char.ofNat 0x2028, 'é', '😀']
+/-- `a"b\c`, newline, U+0001, DEL, U+2028, U+FEFF, a non-ASCII letter and an astral code point. -/
+def hostile : List Char := ['a', '"', 'b', '\\', 'c', '\n', Char.ofNat 1, Char.ofNat 0x7f, Char.ofNat 0x2028, Char.ofNat 0xfeff, 'é', '😀']
 
 example : quoteChars hostile =
     ['"', 'a', '\\', '"', 'b', '\\', '\\', 'c', '\\', 'n', '\\', 'u', '0', '0', '0', '1',
-     '\\', 'u', '0', '0', '7', 'f', '\\', 'u', '2', '0', '2', '8', 'é', '😀', '"'] := by decide
+     '\\', 'u', '0', '0', '7', 'f', '\\', 'u', '2', '0', '2', '8', '\\', 'u', 'f', 'e', 'f', 'f', 'é', '😀', '"'] := by decide
+/-- a raw byte-order mark inside a literal is refused by the reader (as by the engine's scanner) -/
+example : lexString ['"', 'a', Char.ofNat 0xfeff, 'b', '"'] = none := by decide
 example : lexString (quoteChars hostile ++ [')', ' ', '"', 'x']) = some (hostile, [')', ' ', '"', 'x']) := by
   decide
 /-- Upper-case hex digits and the escapes `RegoString` never emits are read too. -/
